@@ -62,7 +62,7 @@ pub struct IEnv {
 }
 
 /// serialised observations of one program (what C16 compares)
-fn run_iops<Zx: Z>(wb: i32, data: &[u8], dict: &[u8], ops: &[IOp], env: &IEnv, at_start: bool) -> Result<Vec<u8>, String> {
+fn run_iops<Zx: Z>(wb: i32, data: &[u8], dict: &[u8], ops: &[IOp], env: &IEnv, at_start: bool, fill: u8) -> Result<Vec<u8>, String> {
     unsafe {
         let mut log: Vec<u8> = vec![];
         let push = |log: &mut Vec<u8>, tag: u8, ret: i64, din: u32, dout: u32, out: &[u8]| {
@@ -73,7 +73,8 @@ fn run_iops<Zx: Z>(wb: i32, data: &[u8], dict: &[u8], ops: &[IOp], env: &IEnv, a
             log.extend_from_slice(&(out.len() as u32).to_le_bytes());
             log.extend_from_slice(out);
         };
-        let mut s = Strm::plain();
+        // every allocation pre-filled: whatever either library reads before writing it is the same in every execution
+        let mut s = Strm::filled(fill);
         let r = Zx::inflateInit2_(s.p(), wb, Zx::zlibVersion(), STREAM_SIZE);
         push(&mut log, 0xF0, r as i64, 0, 0, &[]);
         if r != Z_OK {
@@ -373,6 +374,31 @@ fn drun_summary(r: &Result<DRun, String>) -> String {
 
 fn deflate_side(ctx: &mut Ctx, env: &OpEnv) {
     let quick = ctx.quick();
+    // the gzip header replaced while one of its fields is only partly written (finding D20): every pair of
+    // (header being written, header put in its place) x how far the first call got; zlib-rs alone, must not abort
+    for &(level, method, wb, ml, st) in &[(2, 8, 31, 1, 3), (6, 8, 31, 1, 0), (1, 8, 31, 2, 0)] {
+        for a in [1u8, 3, 4] {
+            for b in [0u8, 1, 2, 3, 4] {
+                for room in [1usize, 5, 12, 30, 100, 300, 511, 600] {
+                    for flush in [Z_NO_FLUSH, Z_SYNC_FLUSH] {
+                        let ops = [DOp::SetHeader(a), DOp::Deflate { flush, inn: 0, room }, DOp::SetHeader(b), DOp::Deflate { flush: Z_NO_FLUSH, inn: 1, room: 7 }];
+                        ctx.case(
+                            "deflate-header-replaced-mid-field",
+                            || format!("deflateInit2(level={level}, method={method}, windowBits={wb}, memLevel={ml}, strategy={st}) ; {} ; tail finish(room=64)", dops_desc(&ops)),
+                            |c| {
+                                c.exec();
+                                c.nontrivial();
+                                let r = run_dops::<Rs>(level, method, wb, ml, st, &ops, env, false, false, 64, false, None)?;
+                                c.outcome(hash_bytes(&r.total_out));
+                                c.validated();
+                                Ok(())
+                            },
+                        );
+                    }
+                }
+            }
+        }
+    }
     let full = c06::alphabet(true);
     let small = c06::alphabet(false);
     let mut cfgs = c06::legal_configs();
@@ -405,6 +431,24 @@ fn deflate_side(ctx: &mut Ctx, env: &OpEnv) {
                             // deflateResetKeep in the middle of a stream: only safety of zlib-rs is judged (done by the run above)
                             c.count("not_compared_resetkeep_mid_stream", 1);
                             return a.map(|_| ());
+                        }
+                        // deflateSetHeader after the first deflate call of a stream breaks its documented precondition and makes
+                        // the reference read past the replaced field: only "never terminates the process" is judged (above)
+                        {
+                            let mut called = false;
+                            let mut misuse = false;
+                            for o in ops {
+                                match o {
+                                    DOp::Deflate { .. } | DOp::Params(..) => called = true,
+                                    DOp::Reset => called = false,
+                                    DOp::SetHeader(_) if called => misuse = true,
+                                    _ => {}
+                                }
+                            }
+                            if misuse {
+                                c.count("not_compared_sethdr_after_deflate", 1);
+                                return a.map(|_| ());
+                            }
                         }
                         let cut = a.as_ref().ok().and_then(|r| r.f2_cut_at);
                         if cut.is_some() {
@@ -592,7 +636,7 @@ fn inflate_side(ctx: &mut Ctx) {
                                 c.nontrivial();
                             }
                             // subject first: a crash here is attributed to zlib-rs by the explorer
-                            let a = run_iops::<Rs>(wb, &ds.bytes, &ds.dict, ops, &env, at_start)?;
+                            let a = run_iops::<Rs>(wb, &ds.bytes, &ds.dict, ops, &env, at_start, 0xA5)?;
                             // zlib-ng 2.3.3 starts the data CRC at the end of a gzip header only while validation is on
                             // (zlib itself resets it unconditionally): with inflateValidate(0) .. header .. inflateValidate(1)
                             // it rejects valid streams. The reference is self-inconsistent there; only safety is judged.
@@ -607,7 +651,7 @@ fn inflate_side(ctx: &mut Ctx) {
                                 }
                             }
                             c.exec();
-                            let ng_run = || match run_iops::<Ng>(wb, &ds.bytes, &ds.dict, ops, &env, at_start) {
+                            let ng_run_fill = |fill: u8| match run_iops::<Ng>(wb, &ds.bytes, &ds.dict, ops, &env, at_start, fill) {
                                 Ok(v) => v,
                                 Err(e) => {
                                     let mut v = vec![0xEE];
@@ -615,6 +659,7 @@ fn inflate_side(ctx: &mut Ctx) {
                                     v
                                 }
                             };
+                            let ng_run = || ng_run_fill(0x00);
                             // pre-screen in a child the programs on which the reference is known to have C-level UB
                             // (priming more bits than a later fast-path run consumes moves its cursor in front of the buffer)
                             let risky = ops.iter().any(|o| matches!(o, IOp::Prime(..) | IOp::PrimeData(..) | IOp::Undermine(..)));
@@ -636,6 +681,21 @@ fn inflate_side(ctx: &mut Ctx) {
                             c.outcome(hash_bytes(&a));
                             record_log(c, &a);
                             if a != b {
+                                // zlib-ng decodes from an arbitrary sync point through a window it never filled: its result then
+                                // depends on the contents of freshly allocated memory, and it is not an oracle for this program
+                                if !risky {
+                                    c.exec();
+                                    let b2 = ng_run_fill(0xFF);
+                                    if b2 != b {
+                                        c.count("not_compared_reference_depends_on_uninitialised_memory", 1);
+                                        c.exec();
+                                        let a2 = run_iops::<Rs>(wb, &ds.bytes, &ds.dict, ops, &env, at_start, 0x00)?;
+                                        if a2 != a {
+                                            return Err(format!("zlib-rs's results depend on the contents of freshly allocated memory: {} with 0xA5-filled allocations, {} with zeroed ones", decode_log(&a), decode_log(&a2)));
+                                        }
+                                        return Ok(());
+                                    }
+                                }
                                 return Err(format!("status codes / data movement differ from zlib-ng: zlib-rs {} ; zlib-ng {}", decode_log(&a), decode_log(&b)));
                             }
                             c.validated();
